@@ -28,6 +28,10 @@ STRUCTS = {
     's_dc':  (16, 8, [('double', 0), ('char', 8)]),
     's_L':   (16, 16, [('ldouble', 0)]),                       # class X87, X87UP: memory as an argument, %st(0) as a return value
     's_Le':  (16, 16, [('ldouble', 0), ('empty', 16)]),         # a zero-size member (GNU empty struct / int t[0]) does not change the class
+    # unions (names u_*): members overlap. A long double overlaid with integers: each eightbyte merges X87/X87UP with INTEGER = INTEGER
+    # (psABI 3.2.3 (4d) comes before (4e)); overlaid with doubles: X87 with SSE = MEMORY (4e)
+    'u_Ll':  (16, 16, [('ldouble', 0), ('long', 0), ('long', 8)]),
+    'u_Ld':  (16, 16, [('ldouble', 0), ('double', 0), ('double', 8)]),
     's_l3':  (24, 8, [('long', 0), ('long', 8), ('long', 16)]),
     's_d3':  (24, 8, [('double', 0), ('double', 8), ('double', 16)]),
 }
@@ -47,14 +51,29 @@ def classify(t):
         return ['INTEGER']
     size, align, members = STRUCTS[t]
     members = [(mt, off) for mt, off in members if mt != 'empty']
-    if size > 16 or any(mt == 'ldouble' for mt, off in members):
-        return ['MEMORY']      # psABI 3.2.3 (5): X87/X87UP eightbytes of an argument go to memory
+    if size > 16:
+        return ['MEMORY']
     n = (size + 7) // 8
     cls = [None] * n
+
+    def merge(a, b):
+        if a is None or a == b:
+            return b
+        if 'INTEGER' in (a, b):
+            return 'INTEGER'                                  # (4d) INTEGER wins a merge
+        if a in ('X87', 'X87UP') or b in ('X87', 'X87UP'):
+            return 'MEMORY'                                   # (4e)
+        return 'SSE'
     for mt, off in members:
+        if mt == 'ldouble':
+            cls[off // 8] = merge(cls[off // 8], 'X87')
+            cls[off // 8 + 1] = merge(cls[off // 8 + 1], 'X87UP')
+            continue
         c = 'SSE' if mt in ('float', 'double') else 'INTEGER'
         k = off // 8
-        cls[k] = c if cls[k] in (None, c) else 'INTEGER'      # INTEGER wins a merge
+        cls[k] = merge(cls[k], c)
+    if any(c in ('MEMORY', 'X87', 'X87UP') for c in cls):
+        return ['MEMORY']      # psABI 3.2.3 (5): X87/X87UP eightbytes of an argument go to memory (a return value of class X87,X87UP: see ret_locs)
     return [c or 'SSE' for c in cls]
 
 
@@ -103,7 +122,7 @@ class Builder:
             return self.T.make(it, name)
         size, align, members = STRUCTS[name]
         t = Obj('Type', lazy=False, label='T:' + name)
-        t.fields.update({'kind': self.E['TY_STRUCT'], 'size': size, 'align': align})
+        t.fields.update({'kind': self.E['TY_UNION' if name.startswith('u_') else 'TY_STRUCT'], 'size': size, 'align': align})
         prev = None
         for i, (mt, off) in enumerate(members):
             m = Obj('Member', lazy=False, label='%s.m%d' % (name, i))
